@@ -337,6 +337,12 @@ func genWriterFile(rng *hlib.Rand, big bool) (*testFile, []byte, string) {
 	for n > maxN {
 		n /= 2
 	}
+	if rng.Chance(1, 30) {
+		// chunks larger than a Worker's two 64 KiB buffers, and more of them than reqc and the Workers can hold
+		// at Concurrency 2 and 3: the whole pipeline fills up after a short Read
+		dcs = []int{131073, 150000, 262144}[rng.Intn(3)]
+		n = dcs*(7+rng.Intn(6)) - rng.Intn(1000)
+	}
 	seed := rng.Uint64()
 	src := genData(seed, 0, n)
 	buf := &bytes.Buffer{}
